@@ -21,6 +21,28 @@ CHECKS = {
         "from the documentation of Network.is_valid).",
         "DESIGN.md section 3, C06",
     ),
+    "C08": (
+        "stateless enumeration of all mutate/read API histories up to a length plus state-matching BFS over "
+        "(graph, memoised-entry set), every lookup compared with a recomputation from the graph at every step",
+        "Bounded exhaustive exploration of read-mutate-read histories on real Network objects: explorer A runs every "
+        "history m1 R1 .. mk (k<=3 quick, k<=4 thorough) over 20 mutating calls and 13 lookups without looking inside "
+        "the object; explorer B is an explicit-state BFS (depth 5 quick / 7 thorough) whose state is the graph plus "
+        "the set of memoised entries, with the staleness invariant checked in every state.",
+        "Universe of 3 nodes/2 links/2 origins/2 destinations; B's state merging assumes memoisation lives in the "
+        "instance __dict__ (A does not); ambiguous lookups under shared element objects accept any pair of the graph.",
+        "DESIGN.md section 3, C08",
+    ),
+    "C09": (
+        "exhaustive enumeration of construction-call histories up to a depth and of all path shapes up to a length, "
+        "real graph compared with a reference graph model after every call",
+        "Bounded exhaustive exploration on the implementation: all histories over 26 construction calls to depth 3 "
+        "(quick) / 4 (thorough) with graph==model after every call, and every path shape of length 0..5 (quick) / "
+        "0..6 (thorough) over 7 token kinds x origin x destination x 2 start networks; well-formed paths must build "
+        "the model graph, malformed ones must raise, and no non-Node may ever become a graph node.",
+        "Reference graph model in mc/graphmodel.py (later attachment replaces earlier); non-node/link tokens are an "
+        "Origin object and a str; partial mutation before a rejection is allowed.",
+        "DESIGN.md section 3, C09",
+    ),
 }
 
 NOT_YET = "check not built yet (work in progress; see DESIGN.md section 7)"
